@@ -39,6 +39,12 @@ func runC19(c *eng.Ctx) {
 	stmt := func(text string) eng.Matcher {
 		return eng.Node(text, func(g *eng.Graph, n ast.Node) bool { return nodeText(n) == text })
 	}
+	callText := func(text string) eng.Matcher {
+		return eng.Node(text, func(g *eng.Graph, n ast.Node) bool {
+			call, ok := n.(*ast.CallExpr)
+			return ok && nodeText(call) == text
+		})
+	}
 	stmtPrefix := func(text string) eng.Matcher {
 		return eng.Node(text+"…", func(g *eng.Graph, n ast.Node) bool {
 			_, isStmt := n.(ast.Stmt)
@@ -318,6 +324,47 @@ func runC19(c *eng.Ctx) {
 		cc.Only("R3", stmt("c.idx++"), "moves on only after the current iterator ended without error", func(l eng.Loc) bool {
 			return cc.UnderCondFalse(l, "c.iterators[c.idx].Next()") && cc.UnderCondFalse(l, "c.iterators[c.idx].Err() != nil")
 		})
+	}
+	// ---- R6 re-encoding of merged chunks: each chunk's meta describes its own samples ----
+	{
+		en := c.Fn(S + "seriesToChunkEncoder.Iterator")
+		cut := stmt("chks = appendChunk(chks, mint, maxt, chk)")
+		en.Has("R6", cut, 4)
+		setMax := stmt("maxt = t")
+		en.Has("R6", setMax, 1)
+		// after a chunk is cut inside the sample loop, the new chunk's min time is re-established before this sample's time is recorded
+		en.PassesBetween("R6", cut, eng.AssignVar("mint"), setMax)
+		en.Dom("R6", setMax, stmt("i++"))
+		en.Only("R6", eng.AssignVar("t"), "is the timestamp of the sample just appended", func(l eng.Loc) bool {
+			if _, ok := l.Node.(*ast.AssignStmt); !ok {
+				return true
+			}
+			t := nodeText(l.Node)
+			return t == "t, v = seriesIter.At()" || t == "t, h = seriesIter.AtHistogram(nil)" || t == "t, fh = seriesIter.AtFloatHistogram(nil)"
+		})
+		en.SwitchCovers("R6", "tsdb/chunkenc:ValueType", 1, map[string]string{"ValNone": "the sample loop ends on ValNone"})
+		// the last open chunk is emitted on every successful return
+		var lastCut eng.Loc
+		for _, l := range en.Find(cut) {
+			if lastCut.Node == nil || l.Node.Pos() > lastCut.Node.Pos() {
+				lastCut = l
+			}
+		}
+		finalCut := eng.Node("the appendChunk after the sample loop", func(g *eng.Graph, n ast.Node) bool { return n == lastCut.Node })
+		en.Dom("R6", finalCut, eng.Or(callText("lcsi.Reset(chks...)"), callText("NewListChunkSeriesIterator(chks...)")))
+		en.FailLeadsTo("R6", eng.OnVar("seriesIter", "Err"), eng.Return("return errChunksIterator{…}", func(g *eng.Graph, rs *ast.ReturnStmt) bool {
+			return len(rs.Results) == 1 && strings.HasPrefix(eng.ExprString(rs.Results[0]), "errChunksIterator{")
+		}), nil)
+		// a chunk handed back by the histogram appenders replaces the open chunk; the old one is emitted unless it was recoded in place
+		en.AstEvery("R6", "handling of a new chunk returned by the histogram appender", func(n ast.Node) bool {
+			is, ok := n.(*ast.IfStmt)
+			return ok && eng.ExprString(is.Cond) == "newChk != nil"
+		}, "emits the old chunk unless recoded, then continues with the new one", func(n ast.Node) bool {
+			t := nodeText(n.(*ast.IfStmt).Body)
+			return strings.Contains(t, "if !recoded { chks = appendChunk(chks, mint, maxt, chk)") && strings.HasSuffix(t, "chk = newChk }")
+		}, 2)
+		ac := c.Fn(S + "appendChunk")
+		ac.LitIs("R6", "tsdb/chunks:Meta", 1, map[string]string{"MinTime": "mint", "MaxTime": "maxt", "Chunk": "chk"})
 	}
 	// ---- R4 heap plumbing: the three heaps differ only in element type ----
 	{
